@@ -128,6 +128,8 @@ class C01(core.Prop):
                                 bad = [(n, k, case_col_fam(case, n)) for n, fr in v.fields.items() for k, val in fr.items() if not val]
                                 for n, k, fam in bad[:3]:
                                     key = 'own-constraint-fails:%s:%s' % (k, fam)
+                                    if k == 'rex' and foreign_digit(case, n):
+                                        key = 'own-constraint-fails:rex:non-ascii-decimal-digit'
                                     if repair and not self._fails_without_repair(case, src, mode, n, k):
                                         key += ':repair-only'
                                     fail('own-constraint-fails', 'rex=%s %s %s repair=%s: %s.%s failed (%s)'
@@ -135,8 +137,9 @@ class C01(core.Prop):
                             if mode == 'detect':
                                 det = v.detected()
                                 if det is not None and len(det) > 0:
-                                    badf = sorted({case_col_fam(case, n) for n, fr in v.fields.items()
-                                                   for k, val in fr.items() if not val})
+                                    badf = sorted({('non-ascii-decimal-digit' if k == 'rex' and foreign_digit(case, n)
+                                                    else case_col_fam(case, n))
+                                                   for n, fr in v.fields.items() for k, val in fr.items() if not val})
                                     fail('detect-reports-records', '%d failing records reported' % len(det),
                                          'detect-reports-records:' + '+'.join(badf))
         finally:
@@ -158,6 +161,13 @@ class C01(core.Prop):
             return not v.fields[name][kind]
         except Exception:
             return True
+
+
+def foreign_digit(case, name):
+    for c in case['frame']['cols']:
+        if c['name'] == name:
+            return any(isinstance(v, str) and any(ch.isdecimal() and not '0' <= ch <= '9' for ch in v) for v in c['cells'])
+    return False
 
 
 def case_col_fam(case, name):
